@@ -580,6 +580,22 @@ class Ladder(object):
                         break
                 if not broke:
                     self.block(s.orelse, env)
+            elif isinstance(s, ast.While):
+                # an index-driven scan: followed while the condition is decided (bounded like the character loop)
+                broke, turns = False, 0
+                while self.truth(self.ev(s.test, env), s.test):
+                    turns += 1
+                    if turns > 400:
+                        raise _Unknown("a loop of more than 400 turns", s)
+                    try:
+                        self.block(s.body, env)
+                    except _Continue:
+                        continue
+                    except _Break:
+                        broke = True
+                        break
+                if not broke:
+                    self.block(s.orelse, env)
             elif isinstance(s, ast.If):
                 self.block(s.body if self.truth(self.ev(s.test, env), s.test) else s.orelse, env)
             elif isinstance(s, ast.With) and len(s.items) == 1 and isinstance(s.items[0].context_expr, ast.Call) \
